@@ -14,7 +14,9 @@ Inductive ckind :=
 | KUndecHs          (* unprotected handshake record whose fragments do not decode: FragmentBuffer.Push fails *)
 | KUndecContent     (* unprotected record with a fresh number whose content does not decode *)
 | KUndecStale       (* same, but its record number is behind / inside the replay window: dropped before decoding *)
-| KWarnAlert.       (* unprotected alert record, warning level, description other than close_notify, fresh number *)
+| KWarnAlert        (* unprotected alert record, warning level, description other than close_notify, fresh number *)
+| KFatalAlert       (* unprotected alert record, level fatal, description other than close_notify, fresh number *)
+| KCloseNotify.     (* unprotected close_notify alert, fresh number *)
 
 (* observation: (error surfaced: handshake abort or Read error, alert sent, connection closed, payload delivered) *)
 Definition cobs := (bool * bool * bool * bool)%type.
@@ -38,6 +40,8 @@ Definition dgram_of (k : ckind) : dgram :=
   | KUndecContent => DRecs [RWire (mk0 99 9000 CBad)]
   | KUndecStale => DRecs [RWire (mk0 99 1 CBad)]
   | KWarnAlert => DRecs [RWire (mk0 21 9000 (CAlert 1 90))]
+  | KFatalAlert => DRecs [RWire (mk0 21 9000 (CAlert 2 40))]
+  | KCloseNotify => DRecs [RWire (mk0 21 9000 (CAlert 1 0))]
   end.
 
 (* the epoch-0 window after the handshake: record number 5000 committed, so number 1 is too old *)
@@ -47,6 +51,8 @@ Definition predict (neg est : bool) (k : ckind) : cobs :=
   let s := aged (if est then st_est else st_fresh) in
   let os := match k with
             | KWarnAlert => snd (recv_conn_neg 64 true false neg est s (mk0 21 9000 (CAlert 1 90)))
+            | KFatalAlert => snd (recv_conn_neg 64 true false neg est s (mk0 21 9000 (CAlert 2 40)))
+            | KCloseNotify => snd (recv_conn_neg 64 true false neg est s (mk0 21 9000 (CAlert 1 0)))
             | _ => snd (recv_dgram 64 false est s (dgram_of k))
             end in
   (existsb is_err os,
